@@ -9,8 +9,10 @@ ASSUMPTIONS = [
     "ROA/ASPA/BGPsec object updates that accompany a received certificate or a configuration change are inputs of the model "
     "(their computation belongs to C01/C05); at key activation the model re-issues every product, as the code does",
     "repository migration (old_repo) and the staging/initiate durations (always 0 in the harness) are not modelled",
-    "roll_completes: every parent answers (certificate with the entitled resources, revocation response); child certificates "
-    "carry no request limit (a limit that no longer fits makes the received certificate fail and the class is dropped)",
+    "roll_completes_partial is about the class's key-state machine (Ca/KeySync.lean) with an answering parent; its tie to the "
+    "manager-level sync is the lock-step run, not a proof; at the Sys level KeyRollActivate is refused as a whole while any class "
+    "has a new key with open requests, and child certificates with request limits can make shrink/activation fail",
+    "no_loss_no_dup_partial assumes objects_mirror (C01) and no stale suspended entry before the activation command",
     "HashMap iteration order is arbitrary: the model visits classes in insertion order, the driver compares per class",
 ]
 
@@ -24,17 +26,26 @@ def replay(ctx, data):
 
 
 MANIFEST = {
-    "text": "Lean 4 theorems over a model of the key-state machine (KeyState with every apply_* of rc.rs as a partial function), "
-            "the published-object side (ResourceClassKeyState) and the CertAuth command processing for key rolls, received "
-            "certificates and entitlements: process only emits events whose apply arm does not panic (stated against a table of "
-            "panic-free key-state variants regenerated from rc.rs/keys.rs/certauth.rs on every run), aggregate and object sets "
-            "mirror each other, only the current set carries products, activation moves every product in one command, finish "
-            "removes the old set, a second initiate is a no-op, the schedule (sync, activate, sync) completes a roll; tied to "
-            "the code by lock-step execution of the model against an in-process krill on seeded histories and by evaluating the "
-            "theorem predicates on the implementation's own state",
-    "note": "Kernel-checked theorems are about the model. Partial: process_emits_applicable excludes revocation requests under a "
-            "class-name mapping (F-C04-1 replays: panic), no_loss_no_dup holds for histories without unsuspension (F-C02-1), "
-            "roll_completes assumes answering parents and no request limits. Real cryptography, manifests/CRLs and the wall "
-            "clock are outside the model.",
-    "technique": "Lean 4 proof (invariants by induction over command histories) + source translator (panic domains) + correspondence check",
+    "text": "Lean 4 theorems over a model of the CertAuth aggregate projected on resource classes, keys, children and child "
+            "certificates (KeyState with every apply_* of rc.rs as a partial function, process for all commands that touch that state) "
+            "and of the published-object side (ResourceClassKeyState, pre-save listener), all for every state reachable by any command "
+            "history with any inputs: the model's apply is defined exactly on the panic-free domain GENERATED from "
+            "certauth.rs/rc.rs/keys.rs on every run (apply_domain_matches_model); process only emits events that apply without panic "
+            "and that the listener accepts (process_emits_applicable_partial; the exception - revocation under a class-name mapping - "
+            "is proved to panic and replays, F-C04-1); aggregate and object sets mirror each other, keys of a class are distinct "
+            "(mirror, keys_distinct); only the current set carries products (single_signer); the activation command moves every "
+            "product and child certificate to the new key's set and empties the old one (activation_moves_everything, "
+            "no_loss_no_dup_partial, witness of the loss after unsuspension F-C02-1); the finish command leaves one set "
+            "(finish_removes_old_set); a second initiate emits nothing (second_roll_noop); two rounds of (sync, activate, sync) complete "
+            "every roll of the class key-state machine (roll_completes_partial). Tied to the code by lock-step execution of the model "
+            "against an in-process krill (every stored command: events predicted by process, observed events applied by the partial "
+            "apply and the listener model, state compared with CertAuth and CaObjects) on hand-written scenarios and seeded histories, "
+            "and by the theorem predicates evaluated on the implementation's own state",
+    "note": "Kernel-checked theorems are about the model. Partial: process_emits_applicable excludes revocation requests whose "
+            "translated class is missing or pending (F-C04-1 replays: panic in the request handler); no_loss_no_dup needs objects_mirror "
+            "and no stale suspended entry (F-C02-1); roll_completes is proved on the class key-state machine, not lifted to the "
+            "multi-class Sys level. Also recorded: F-C03-1 (revocation under a mapped class name ignored) and F-C04-2 (activation "
+            "re-issues ROAs outside a shrunken new certificate). Real cryptography, manifests/CRLs and the wall clock are outside the model.",
+    "technique": "Lean 4 proof (invariants by induction over command histories, finite abstraction + decide, concrete counter-examples) "
+                 "+ source translator (panic domains) + correspondence check",
 }
